@@ -68,7 +68,7 @@ PROPS["C07"] = dict(
          "distinct = distinct (recorded history, pick sequence) pairs",
     components_real=["storage/memory (real code, instrumented scratch copy: sim.Yield before every statement, sim.RWMutex)", "triple, node, predicate, literal (real code)"],
     components_stub=["clients and channel drainers (harness tasks)", "scheduler: seeded cooperative baton scheduler inside a testing/synctest bubble (x/sim)"],
-    assumptions=["switch points are statement boundaries: what two racing statements do to memory is below the simulator's granularity; the race clause of C07 is covered by (a) unsynchronised multi-statement updates becoming visible to the linearizability / invariant / audit oracles and (b) the lock-discipline check: every access to a mutex-guarded field of storage/memory (map fields and fields declared after the mutex) is checked against the locks the accessing task holds; accesses through a local alias of a bucket are not seen",
+    assumptions=["switch points are statement boundaries: what two racing statements do to memory is below the simulator's granularity; the race clause of C07 is covered by (a) unsynchronised multi-statement updates becoming visible to the linearizability / invariant / audit oracles and (b) the lock-discipline check: every access to a mutex-guarded field of storage/memory (map fields and fields declared after the mutex) is checked against the locks the accessing task holds; local map-typed aliases of guarded data are followed, buckets passed on as parameters only up to the call",
                  "sim.RWMutex admits any hand-over order (a superset of sync.RWMutex); Go's writer preference is modelled as a per-run flag",
                  "porcupine timeouts (10 s) are counted as inconclusive, never reported"],
 )
